@@ -102,7 +102,7 @@ def gen(tier, seed):
     if full:
         lens += list(range(17, 1000, 7)) + list(range(1041, 2048, 13))
     for n in lens:
-        add("p2s length grid", "pbes2_unw\tkeep\t%s\t%d" % (dumps("A" * elen(n)), n % 3))
+        add("p2s length grid", "pbes2_unw\tkeep\tlen:%d\t%d" % (n, n % 3))
     for n in (7, 8, 9, 16, 1023, 1024, 1025):
         add("p2s random content", "pbes2_unw\tkeep\t%s\t0" % dumps(b64(bytes(rnd.randrange(256) for _ in range(n)))))
     for bad in ["-", "5", "null", "[]", dumps("AAAAA"), dumps("AAAA*AAAAAAAAAA"), dumps("AAAAAAAAAAAAAAA="), dumps("AAAAAAAAAAB"),
@@ -200,7 +200,11 @@ def slow(d):
         return False
 
 
+_RAW = {}   # case -> the implementation's line with its timing / plaintext-length fields (see normalize)
+
+
 def oracle(case, out):
+    out = _RAW.get(case, out)     # runner.standard hands the normalized line over; the oracle also checks the fields dropped there
     if out.startswith("CRASH") or out == "MISSING":
         return ("crash:" + case.split("\t")[0] + ":" + out[:70], "crash, sanitizer report or time-out on %r: %s" % (case[:200], out))
     if "SETUP-FAILED" in out or "UNKNOWN" in out:
@@ -225,7 +229,7 @@ def oracle(case, out):
                     "jose_jwe_dec_jwk (%s) with header p2c=%d (not positive) ran the key derivation with %s iterations%s"
                     % (PB_ALG[int(f[3])], v, d["iter"], " and unwrapped the key" if d["final"] == "A" else ""))
         if f[2] != "keep":
-            p2s = None if f[2] == "-" else json.loads(f[2])
+            p2s = None if f[2] == "-" else ("A" * elen(int(f[2][4:])) if f[2].startswith("len:") else json.loads(f[2]))
             dl = dlen_text(p2s) if isinstance(p2s, str) else None
             ok = dl is not None and 8 <= dl <= KEYMAX
             if not ok and d["G"] != "R":
@@ -317,6 +321,9 @@ def nontrivial(case, out):
 
 
 def normalize(case, line):
+    """timing (us=) and plaintext length (ptl=) are outside the comparison with the model; only the implementation prints them"""
+    if "\tus=" in line:
+        _RAW[case] = line
     return "\t".join(x for x in line.split("\t") if not (x.startswith("us=") or x.startswith("ptl=")))
 
 
